@@ -98,7 +98,7 @@ fn c18_client_mode_never_replies_never_stores_never_learns() {
     kani::assume(kind < 6);
     unsafe { SERVER_REPLIES = kani::any::<u8>() % 3 };
     let ro: bool = kani::any();
-    let version: Option<[u8; 4]> = if kani::any() { Some(VERSION) } else { None };
+    let version: Option<[u8; 4]> = if kani::any() { Some(crate::core::VERSION) } else { None };
     if kani::any() {
         c.bootstrap = Box::new([SocketAddrV4::new(1u32.into(), 1)]);
     }
@@ -122,7 +122,7 @@ fn c18_server_mode_replies_and_never_learns_read_only_requesters() {
     unsafe { SERVER_REPLIES = replies };
     let ro: bool = kani::any();
     let signed: bool = kani::any();
-    let version: Option<[u8; 4]> = if signed { Some(VERSION) } else if kani::any() { Some([82, 83, 0, 5]) } else { None };
+    let version: Option<[u8; 4]> = if signed { Some(crate::core::VERSION) } else if kani::any() { Some([82, 83, 0, 5]) } else { None };
     let has_bootstrap: bool = kani::any();
     if has_bootstrap {
         c.bootstrap = Box::new([SocketAddrV4::new(1u32.into(), 1)]);
